@@ -10,4 +10,19 @@ for root, _, files in os.walk(COQ):
             p = os.path.join(root, f)
             bad += gate_scan(open(p).read(), os.path.relpath(p, VERIF))
 print('\n'.join(bad) if bad else 'gate clean: no Admitted/admit/Axiom/Parameter/Conjecture/unguarded Variable/Hypothesis in coq/')
-sys.exit(1 if bad else 0)
+# schemas (jsonschema lives in the tooling venv python3-vt)
+import subprocess
+code = '''
+import json, jsonschema, glob, sys
+jsonschema.validate(json.load(open("/verif/MANIFEST.json")), json.load(open("/root/.vp/MANIFEST.schema.json")))
+es = json.load(open("/root/.vp/EVIDENCE.schema.json")); n = 0
+claimed = {c["property_id"] for c in json.load(open("/verif/MANIFEST.json"))["checks"]}
+for f in sorted(glob.glob("/verif/evidence/*.json")):
+    e = json.load(open(f)); jsonschema.validate(e, es); n += 1
+    if e.get("violations"): print("evidence with violations:", f); sys.exit(1)
+missing = claimed - {f.split("/")[-1][:-5] for f in glob.glob("/verif/evidence/*.json")}
+if missing: print("claimed without evidence:", sorted(missing)); sys.exit(1)
+print("MANIFEST.json and %d evidence files validate against the schemas" % n)
+'''
+rc = subprocess.run(['python3-vt', '-c', code]).returncode
+sys.exit(1 if bad or rc else 0)
